@@ -43,7 +43,10 @@ class VDateTime(datetime):
     def now(cls, tz=None):
         w = _CUR[0]
         if w is None:
-            return datetime.now(tz)
+            # library code reading the calendar clock outside any world (direct seams): a fixed instant, never the real clock
+            t = EPOCH
+            t = cls(t.year, t.month, t.day, t.hour, t.minute, t.second, t.microsecond, tzinfo=timezone.utc)
+            return t.replace(tzinfo=None) if tz is None else t.astimezone(tz)
         t = w.epoch + timedelta(seconds=w.loop.time())
         t = cls(t.year, t.month, t.day, t.hour, t.minute, t.second, t.microsecond, tzinfo=timezone.utc)
         if tz is None:
